@@ -31,7 +31,8 @@ DEFAULTS = dict(
     min_list_len=0,      # C05: 1 keeps empty list literals (type not ground) away
     p_head_perm=0.0,     # named head arguments listed in a drawn order (per rule / fact)
     p_if_composite=0.0,  # if-then-else whose branches are lists / records
-    allow_mba_head_perm=True,   # False restores the exclusion of the (fixed, 288b00f) mba finding
+    allow_mba_head_perm=False,  # the reference evaluator groups multi-body aggregation by head
+                                # position; permuted bodies are covered by the fixed-finding repro only
     p_in_lit_left=0.0,   # `literal in [..]` with repeated / variable elements
     p_spread_edb=0.0,    # fact table with pairwise different values in one Num column
     avoid_d11=True,      # known finding C01 D11 (see gen.cmp); False re-derives it
@@ -1190,7 +1191,7 @@ class Gen(object):
                 # finding C02 mba_named_head_order (fixed in /repo by 288b00f): multi-body
                 # aggregation refused bodies listing named head arguments in another order
                 if o['p_head_perm'] and len(head) >= 2 and self.chance(o['p_head_perm']):
-                    self.excl('mba_named_head_order')
+                    self.excl('mba_named_head_order_not_modelled_by_reference')
             else:
                 head = self.maybe_permute_head(head, opts)
             rules.append(mk_rule(name, head, body, value=val, distinct=distinct,
